@@ -482,6 +482,20 @@ func (s *Summarizer) valueForm(v ssa.Value, env termEnv) *Form {
 		return s.binopForm(x, env)
 	case *ssa.Call:
 		return s.callForm(x, env)
+	case *ssa.Extract:
+		// boolean result #i of a repository helper with several results: over its returns
+		if call, ok := x.Tuple.(*ssa.Call); ok {
+			if f, env2, ok := s.repoCallee(call, env); ok {
+				var alts []*Form
+				for _, ret := range Returns(f) {
+					if x.Index >= len(ret.Results) {
+						return fUnknown("result arity")
+					}
+					alts = append(alts, fAnd(s.blockCond(ret.Block(), env2, fnName(f)+" return"), s.ValueForm(ret.Results[x.Index], env2)))
+				}
+				return fOr(alts...)
+			}
+		}
 	}
 	return fUnknown(fmt.Sprintf("unrecognised boolean value %s", s.pv.Of(v)))
 }
@@ -785,6 +799,37 @@ func (s *Summarizer) binopForm(x *ssa.BinOp, env termEnv) *Form {
 					}
 					if t, ok := s.termOf(arg, env); ok && k == 0 {
 						return wrap(atom(&LAtom{Kind: "empty", Term: t, Desc: fmt.Sprintf("%s==\"\"", termStr(t))}))
+					}
+				}
+			}
+		}
+		// result #i of a repository helper == "K": over the helper's returns
+		if k, ok := constString(b); ok {
+			var call *ssa.Call
+			idx := 0
+			if cl, ok := a.(*ssa.Call); ok {
+				call = cl
+			} else if ex, ok := a.(*ssa.Extract); ok {
+				if cl, ok := ex.Tuple.(*ssa.Call); ok {
+					call, idx = cl, ex.Index
+				}
+			}
+			if call != nil {
+				if _, okTerm := s.termOf(a, env); !okTerm {
+					if f, env2, ok := s.repoCallee(call, env); ok && s.depth < 20 {
+						var alts []*Form
+						bad := false
+						for _, ret := range Returns(f) {
+							if idx >= len(ret.Results) || !isStringish(ret.Results[idx].Type()) {
+								bad = true
+								break
+							}
+							eq := s.strEqConst(ret.Results[idx], k, env2)
+							alts = append(alts, fAnd(s.blockCond(ret.Block(), env2, fnName(f)+" return"), eq))
+						}
+						if !bad {
+							return wrap(fOr(alts...))
+						}
 					}
 				}
 			}
@@ -1678,4 +1723,49 @@ func (s *Summarizer) noteDropped(cond ssa.Value, pol bool, env termEnv) {
 		}
 	}
 	s.Dropped = append(s.Dropped, droppedGuard{Fn: f, Args: args, Pol: pol})
+}
+
+// repoCallee: the static callee of a call if it is a function of the repository with a body, and the
+// term environment of its parameters.
+func (s *Summarizer) repoCallee(call *ssa.Call, env termEnv) (*ssa.Function, termEnv, bool) {
+	f := staticCallee(call.Common())
+	if f == nil || f.Blocks == nil || f.Pkg == nil || !strings.HasPrefix(f.Pkg.Pkg.Path(), modulePath) {
+		return nil, nil, false
+	}
+	env2 := termEnv{}
+	for i, p := range f.Params {
+		if i < len(call.Common().Args) {
+			if t, ok := s.termOf(call.Common().Args[i], env); ok {
+				env2[p] = t
+			}
+		}
+	}
+	return f, env2, true
+}
+
+// strEqConst: the condition "v == k" for a string value v (a constant, a submatch element, a term).
+func (s *Summarizer) strEqConst(v ssa.Value, k string, env termEnv) *Form {
+	if c, ok := constString(v); ok {
+		if c == k {
+			return fTrue()
+		}
+		return fFalse()
+	}
+	if u, ok := v.(*ssa.UnOp); ok && u.Op == token.MUL {
+		if ia, ok := u.X.(*ssa.IndexAddr); ok {
+			if gi, ok := constInt(ia.Index); ok {
+				if rc, t, ok := s.submatchOf(ia.X, env); ok {
+					return atom(&LAtom{Kind: "capeq", Regex: rc, Group: int(gi), K: k, Term: t,
+						Desc: fmt.Sprintf("Cap%d(%s,%s)==%q", gi, rc.Name, termStr(t), k)})
+				}
+			}
+		}
+	}
+	if t, ok := s.termOf(v, env); ok {
+		if k == "" {
+			return atom(&LAtom{Kind: "empty", Term: t, Desc: fmt.Sprintf("%s==\"\"", termStr(t))})
+		}
+		return atom(&LAtom{Kind: "eq", Str: k, Term: t, Desc: fmt.Sprintf("%s==%q", termStr(t), k)})
+	}
+	return fUnknown("string comparison " + s.pv.Of(v).String())
 }
